@@ -176,7 +176,10 @@ def run_case(tape, tier):
                 res.steps += 1
                 if (k + 1) % every == 0:
                     rx.serviceAllRx()
-            rx.serviceAllRx()
+            # drain: a zero-length datagram reads like "nothing more to receive" and ends one service pass early; what is
+            # queued behind it is received by the following passes (a delay, not a loss)
+            for _ in range(len(schedule) + 3):
+                rx.serviceAllRx()
         except Exception as ex:
             import traceback
             tb = traceback.extract_tb(ex.__traceback__)
